@@ -581,6 +581,21 @@ func realHandshakesE() []handshake {
 			},
 		},
 		{
+			// the receiving entity adds an element the client does not know in the namespace of a
+			// feature it does know (SASL, bind): nothing may panic, the handshake completes
+			name: "c2s-sasl-bind+sib", short: true,
+			steps: []exchange{
+				{expect: reStream, send: hdrS("s1") + `<stream:features>` + mech + fmt.Sprintf(`<hint xmlns='%s'/>`, nsSASL) + `</stream:features>`},
+				{expect: reAuth, send: fmt.Sprintf(`<success xmlns='%s'/>`, nsSASL)},
+				{expect: reStream, send: hdrS("s2") + `<stream:features>` + bindF + fmt.Sprintf(`<hint xmlns='%s'/>`, nsBind) + `</stream:features>`},
+				{expect: reIQ, send: bindRes},
+			},
+			run: func(ctx context.Context, c net.Conn) (*xmpp.Session, error) {
+				fs := []xmpp.StreamFeature{xmpp.SASL("", "pw", sasl.Plain), xmpp.BindResource()}
+				return xmpp.NewSession(ctx, srv, me, c, xmpp.Secure, xmpp.NewNegotiator(cfg(false, fs)))
+			},
+		},
+		{
 			name: "recv-ws-sasl-bind",
 			steps: []exchange{
 				{expect: nil, send: wsOpenC},
